@@ -3,7 +3,7 @@ from __future__ import annotations
 
 from ..driver import Knockout, sub_nth, sub_once
 from ..report import Ctx
-from ..rules import effects, gatesum, tables
+from ..rules import effects, gatesum, hooks, tables
 from ..rules.effects import CBASE, DAG, MC, NM
 
 EXPLANATION = (
@@ -27,6 +27,7 @@ def run(ctx: Ctx) -> None:
     effects.rule_noise_off(ctx)
     effects.rule_noise_factor(ctx)
     effects.rule_noise_order(ctx)
+    hooks.rule_pair_noise_applied(ctx)
     effects.rule_shared_op_store(ctx)
     tm = repo.module(gatesum.TRANSFORM)
     handled = tables.handled_tags_chain(repo, tm, repo.anchor(gatesum.TRANSFORM, "run_circuit"))
@@ -37,6 +38,7 @@ def run(ctx: Ctx) -> None:
 
 
 KNOCKOUTS = [
+    Knockout("pair-noise-early-return", hooks.DM, sub_once("            control_noise.apply(\n                state, n_quantum, [q_index(op.control, op.control_type)]\n            )\n            target_noise.apply", "            control_noise.apply(\n                state, n_quantum, [q_index(op.control, op.control_type)]\n            )\n            if isinstance(target_noise, nm.NoNoise):\n                return\n            control_noise.apply"), "noise.both-applied", "pair noise"),
     Knockout("A3-photonloss-mixed", NM,
              sub_once("        elif isinstance(state_rep, MixedStabilizer):\n            mixture = state_rep.mixture\n            for i in range(len(mixture)):\n                mixture[i] = ((1 - loss_rate) * mixture[i][0], mixture[i][1])\n", ""),
              "dispatch.backend-cover", "PhotonLoss.apply: no branch for MixedStabilizer"),
